@@ -153,6 +153,8 @@ def record_repo_tests(out_path, files, repo, timeout=3000, want_collections=Fals
     """Run some of the repository's own tests under the tracer (in a subprocess) and return the traces."""
     root = os.path.dirname(os.path.dirname(os.path.abspath(__file__)))
     env = dict(os.environ, GLUE_VERIF_TRACE='1', GLUE_VERIF_TRACE_OUT=out_path, PYTHONPATH=root + os.pathsep + repo, MPLBACKEND='Agg')
+    if want_collections == 'viewers':
+        env['GLUE_VERIF_TRACE_VIEWERS'] = '1'
     cmd = [sys.executable, '-m', 'pytest', '-q', '-p', 'no:cacheprovider', '-p', 'harness.glue_tracer_plugin', '--timeout=900'] + files
     p = subprocess.run(cmd, cwd=repo, env=env, stdout=subprocess.PIPE, stderr=subprocess.STDOUT, timeout=timeout)
     tail = p.stdout.decode('utf-8', 'replace')[-400:]
@@ -164,6 +166,9 @@ def record_repo_tests(out_path, files, repo, timeout=3000, want_collections=Fals
     if os.path.exists(out_path + '.coll'):
         with open(out_path + '.coll') as f:
             coll = json.load(f)
+    if want_collections == 'viewers':
+        with open(out_path + '.viewers') as f:
+            return hub, coll, json.load(f), tail
     if want_collections:
         return hub, coll, tail
     return hub, tail
